@@ -2,6 +2,7 @@
 import os, re
 import vlib
 from vlib import Case
+import props.hdr_facts as F
 
 ID = "C13"
 COQ_DIRS = ["Common", "C13"]
@@ -30,61 +31,153 @@ ASSUMPTIONS = [
 TRUSTED = ["translator props/c13.py:translate compares the arm order and literals of on_request_headers / on_response_headers / handle_trailer / the converter's Header arm with /repo"]
 
 
+TRANSLATE_FALLBACK = ("every fact read from editor.rs / pkawa.rs / converter.rs / h1.rs / h2.rs decides the header list that is written: the "
+                      "in-process correspondence compares it with the model's on every case (every proxy-owned name in several case "
+                      "variants and positions, correlation names colliding with the reserved ones, H2 trailers carrying the elided "
+                      "names, connection-specific / te / trailer / http2-settings names toward H2) and the black-box tiers (extra_stage, "
+                      "run on every check) observe the trailer filtering call sites of h1.rs / h2.rs through a real worker. Not "
+                      "observed, hence hard: the reserved list of validate_sozu_id_header and its call sites (read as a set of string "
+                      "literals / a call count). The two defensive byte-class filters of the converter's Header arm cannot be reached "
+                      "by header blocks kawa / pkawa produce; they only pin the model's defensive branch")
+
+ARM_NAMES = [b"connection", b"x-forwarded-proto", b"x-forwarded-port", b"x-forwarded-for", b"x-real-ip", b"forwarded",
+             b"user-agent", b"x-request-id"]
+PUSHED = [b"x-forwarded-for", b"forwarded", b"x-real-ip", b"x-forwarded-port", b"x-forwarded-proto", b"connection", b"x-request-id", b"<id>"]
+
+
+def _fact(fails, what, assumed, fn, hard=False):
+    try:
+        d = fn()
+        if d:
+            fails.append("%s: %s (the model assumes %s)" % (what, d, assumed))
+    except Exception as ex:
+        fails.append("%s%s: %s; the model assumes %s" % ("" if hard else "unreadable: ", what, ex if isinstance(ex, F.Unreadable) else repr(ex), assumed))
+
+
+def _names(text):
+    """ordered lower-cased header-name-like byte string literals of text, with offsets"""
+    return [(o, x.lower()) for o, x in F.byte_strings(text) if re.fullmatch(rb"[A-Za-z0-9-]{2,}", x)]
+
+
 def translate():
-    """T-order / T-const: the chain of `compare_no_case` arms, the order of the
-    pushed headers and the literals the model hard-codes must still be the source's."""
+    """T-order / T-const, reading values: the order in which on_request_headers tests the names, the order of the
+    headers it pushes, the literals of the Forwarded element, the elision lists, the H2 filter's names."""
     fails = []
-    ed = open(os.path.join(vlib.REPO, "lib/src/protocol/kawa_h1/editor.rs")).read()
-    pk = open(os.path.join(vlib.REPO, "lib/src/protocol/mux/pkawa.rs")).read()
-    cv = open(os.path.join(vlib.REPO, "lib/src/protocol/mux/converter.rs")).read()
-    m = re.search(r"fn on_request_headers\(.*?\n    fn on_response_headers", ed, re.S)
-    if not m:
-        return ["editor.rs: on_request_headers not found"]
-    req = m.group(0)
-    arms = re.findall(r'compare_no_case\(key, (b"[^"]+"|self\.sozu_id_header\.as_bytes\(\))\)', req)
-    want = ['b"connection"', 'b"X-Forwarded-Proto"', 'b"X-Forwarded-Port"', 'b"X-Forwarded-For"', 'b"X-Real-IP"',
-            'b"Forwarded"', 'b"User-Agent"', 'b"X-Request-Id"', 'self.sozu_id_header.as_bytes()']
-    if arms[:len(want)] != want:
-        fails.append("editor.rs: the arm chain of on_request_headers is %r, the model's classify has %r" % (arms, want))
-    pushed = re.findall(r'key: kawa::Store::(?:Static\(b"([^"]+)"\)|from_string\((self\.sozu_id_header)\.clone\(\)\))', req)
-    pushed = [a or b for a, b in pushed if a != "traceparent"]   # cfg(feature = "opentelemetry"), off
-    wantp = ["X-Forwarded-For", "Forwarded", "X-Real-IP", "X-Forwarded-Port", "X-Forwarded-Proto", "Connection",
-             "X-Request-Id", "self.sozu_id_header"]
-    if pushed != wantp:
-        fails.append("editor.rs: headers pushed by on_request_headers are %r, the model appends %r" % (pushed, wantp))
-    for lit in ['b";for=\\""', 'b"\\";by="', 'b", proto="', 'b"proto="', '", {peer_ip}"', 'b"; Path=/"']:
-        if lit not in ed:
-            fails.append("editor.rs: literal %s is gone" % lit)
-    if not re.search(r'b"x-real-ip" \| b"x-forwarded-for" \| b"forwarded" \| b"x-request-id"', pk):
-        fails.append("pkawa.rs: handle_trailer no longer elides exactly x-real-ip|x-forwarded-for|forwarded|x-request-id")
-    st = open(os.path.join(vlib.REPO, "command/src/state.rs")).read()
-    mv = re.search(r"pub fn validate_sozu_id_header.*?\n}\n", st, re.S)
-    reserved = re.findall(r'^\s+"([a-z0-9-]+)",$', mv.group(0), re.M) if mv else []
-    model_reserved = re.findall(r'B "([a-z0-9-]+)"', re.search(r"Definition reserved_id_names.*?\]\.", open(os.path.join(vlib.COQ, "C13/Model.v")).read(), re.S).group(0))
-    if reserved != model_reserved:
-        fails.append("state.rs: validate_sozu_id_header RESERVED list %r differs from the model's reserved_id_names %r" % (reserved, model_reserved))
-    if len(re.findall(r"validate_sozu_id_header\(v\)\?;", st)) < 4:
-        fails.append("state.rs: the add and update paths of the HTTP/HTTPS listeners no longer all call validate_sozu_id_header")
-    if mv and "RESERVED.iter().any(|name| value.eq_ignore_ascii_case(name))" not in mv.group(0):
-        fails.append("state.rs: validate_sozu_id_header no longer rejects the reserved names case-insensitively")
-    h1 = open(os.path.join(vlib.REPO, "lib/src/protocol/mux/h1.rs")).read()
-    h2 = open(os.path.join(vlib.REPO, "lib/src/protocol/mux/h2.rs")).read()
-    mt = re.search(r"pub\(super\) fn elide_proxy_owned_trailers.*?\n}\n", pk, re.S)
-    tn = re.findall(r'compare_no_case\(key, (b"[^"]+"|sozu_id_header)\)', mt.group(0)) if mt else []
-    if tn != ['b"x-forwarded-for"', 'b"forwarded"', 'b"x-real-ip"', 'b"x-request-id"', 'sozu_id_header']:
-        fails.append("pkawa.rs: elide_proxy_owned_trailers names are %r" % tn)
-    if len(re.findall(r"pkawa::elide_proxy_owned_trailers\(", h1)) != 2:
-        fails.append("h1.rs: the two parse sites no longer filter request trailers (elide_proxy_owned_trailers)")
-    if not re.search(r"if status\.is_ok\(\) && !was_initial && self\.position\.is_server\(\) \{[^}]*pkawa::elide_proxy_owned_trailers\(", h2, re.S):
-        fails.append("h2.rs: handle_headers_frame no longer filters request trailers (elide_proxy_owned_trailers)")
-    m = re.search(r"pub\(super\) fn is_connection_specific_header.*?\n}\n", pk, re.S)
-    names = re.findall(r'compare_no_case\(name, b"([^"]+)"\)', m.group(0)) if m else []
-    if names != ["connection", "proxy-connection", "transfer-encoding", "upgrade", "keep-alive"]:
-        fails.append("pkawa.rs: is_connection_specific_header names are %r" % names)
-    for lit in ['compare_no_case(key, b"host") || compare_no_case(key, b"http2-settings")', 'compare_no_case(key, b"trailer")',
-                '(compare_no_case(key, b"te")', 'b <= 0x20 || b >= 0x7f', '0x00..=0x08 | 0x0A..=0x1F | 0x7F']:
-        if lit not in cv:
-            fails.append("converter.rs: Header arm no longer contains %s" % lit)
+    rd = lambda rel: F.strip_comments(open(os.path.join(vlib.REPO, rel)).read())
+    ed, pk, cv = rd("lib/src/protocol/kawa_h1/editor.rs"), rd("lib/src/protocol/mux/pkawa.rs"), rd("lib/src/protocol/mux/converter.rs")
+    ed = F.subst_consts(ed, F.consts(ed))
+    pk = F.subst_consts(pk, F.consts(pk))
+    cv = F.subst_consts(cv, F.consts(cv))
+
+    def arms():
+        req = F.fn_body(ed, "on_request_headers")
+        cut = req.find("push_block(")
+        head = req if cut < 0 else req[:cut]
+        seq, seen = [], set()
+        for o, n in _names(head):
+            if n in ARM_NAMES and n not in seen:
+                seen.add(n)
+                seq.append((o, n))
+        mi = re.search(r"\w+\(\s*\w+\s*,\s*(?:&\s*)?self\.sozu_id_header", head)
+        if mi:
+            seq.append((mi.start(), b"<id>"))
+        seq = [n for _, n in sorted(seq)]
+        want = ARM_NAMES + [b"<id>"]
+        if set(seq) != set(want):
+            raise F.Unreadable("names tested before the first push: %r" % seq)
+        return None if seq == want else "the names are tested in the order %r" % seq
+    _fact(fails, "editor.rs on_request_headers arm chain", "connection, X-Forwarded-Proto, -Port, -For, X-Real-IP (when eliding), Forwarded, User-Agent, X-Request-Id, correlation header", arms)
+
+    def pushed():
+        req = F.fn_body(ed, "on_request_headers")
+        got = []
+        for m in re.finditer(r"key\s*:\s*(?:kawa::)?Store::\w+\(\s*(b\"[^\"]+\"|[^;]*?sozu_id_header[^;]*?)\)\s*,", req):
+            t = m.group(1)
+            got.append(F.unescape(t[2:-1]).lower() if t.startswith('b"') else b"<id>")
+        got = [g for g in got if g != b"traceparent"]     # cfg(feature = "opentelemetry"), off in the build
+        if sorted(got) != sorted(PUSHED):
+            raise F.Unreadable("header blocks pushed: %r" % got)
+        return None if got == PUSHED else "headers are pushed in the order %r" % got
+    _fact(fails, "editor.rs on_request_headers pushes", "X-Forwarded-For, Forwarded, X-Real-IP, X-Forwarded-Port, X-Forwarded-Proto, Connection, X-Request-Id, correlation header", pushed)
+
+    def literals():
+        lits = [x for _, x in F.byte_strings(ed)]
+        for need in (b';for="', b'";by=', b", proto=", b"proto=", b"; Path=/"):
+            if need not in lits:
+                raise F.Unreadable("literal %r is not in editor.rs" % need)
+        if not re.search(r'", \{\w+\}"', ed):
+            raise F.Unreadable('the `", {peer}"` element appended to X-Forwarded-For is not recognised')
+    _fact(fails, "editor.rs literals", 'proto=<p>;for="<peer>";by=<public>, `, ` separators, `; Path=/`', literals)
+
+    def trailer_list():
+        got = {n for _, n in _names(F.fn_body(pk, "handle_trailer"))}
+        want = {b"x-real-ip", b"x-forwarded-for", b"forwarded", b"x-request-id"}
+        if not want & got:
+            raise F.Unreadable("no elided name is spelled in handle_trailer")
+        return None if got == want else "handle_trailer names %r" % sorted(got)
+    _fact(fails, "pkawa.rs handle_trailer elision", "x-real-ip | x-forwarded-for | forwarded | x-request-id", trailer_list)
+
+    def owned_trailers():
+        body = F.fn_body(pk, "elide_proxy_owned_trailers")
+        got = {n for _, n in _names(body)}
+        want = {b"x-real-ip", b"x-forwarded-for", b"forwarded", b"x-request-id"}
+        if not want & got or not re.search(r"\w+\(\s*\w+\s*,\s*&?\s*sozu_id_header\s*\)", body):
+            raise F.Unreadable("names %r / the correlation header test are not recognised" % sorted(got))
+        return None if got == want else "elide_proxy_owned_trailers names %r" % sorted(got)
+    _fact(fails, "pkawa.rs elide_proxy_owned_trailers", "the four attribution names + the correlation header", owned_trailers)
+
+    def call_sites():
+        h1, h2 = rd("lib/src/protocol/mux/h1.rs"), rd("lib/src/protocol/mux/h2.rs")
+        n1, n2 = len(re.findall(r"\belide_proxy_owned_trailers\s*\(", h1)), len(re.findall(r"\belide_proxy_owned_trailers\s*\(", h2))
+        if n1 < 2 or n2 < 1:
+            raise F.Unreadable("elide_proxy_owned_trailers is called %d time(s) in h1.rs and %d in h2.rs" % (n1, n2))
+    _fact(fails, "h1.rs / h2.rs trailer filtering", "both H1 parse sites and the H2 trailer path call elide_proxy_owned_trailers", call_sites)
+
+    def conn_specific():
+        got = {n for _, n in _names(F.fn_body(pk, "is_connection_specific_header"))}
+        want = {b"connection", b"proxy-connection", b"transfer-encoding", b"upgrade", b"keep-alive"}
+        if not got:
+            raise F.Unreadable("no name is spelled in is_connection_specific_header")
+        return None if got == want else "connection-specific names %r" % sorted(got)
+    _fact(fails, "pkawa.rs is_connection_specific_header", "connection, proxy-connection, transfer-encoding, upgrade, keep-alive", conn_specific)
+
+    def h2_arm():
+        m = re.search(r"impl\s*<[^>]*>\s*BlockConverter<[^>]*>\s*for\s+H2BlockConverter", cv)
+        body = cv[m.start():] if m else cv
+        lits = {n for _, n in _names(body)}
+        for need in (b"host", b"http2-settings", b"trailer", b"te", b"trailers"):
+            if need not in lits:
+                raise F.Unreadable("literal %r is not in the converter" % need)
+        sets = []
+        for mm in re.finditer(r"\.any\(\s*\|\s*&?\s*(\w+)\s*\|", body):
+            st = body.find("(", mm.start())
+            try:
+                sets.append(F.eval_pred(body[mm.end():F.matching(body, st, "(", ")")], mm.group(1)))
+            except F.Unreadable:
+                pass
+        if (set(range(0, 33)) | set(range(127, 256))) not in sets or (set(range(0, 9)) | set(range(10, 32)) | {127}) not in sets:
+            raise F.Unreadable("the defensive name / value byte filters of the Header arm are not recognised")
+    _fact(fails, "converter.rs Header arm", "host, http2-settings, trailer, te != trailers dropped; names <= 0x20 or >= 0x7f and values with C0/DEL dropped", h2_arm)
+
+    # ---- not observed by any driver: stays hard, read as values
+    def reserved():
+        st = rd("command/src/state.rs")
+        body = F.fn_body(st, "validate_sozu_id_header")
+        got = [x for _, x in F.byte_strings(body) if re.fullmatch(rb"[a-z0-9-]{2,}", x)]
+        if len(got) < 5:
+            # the list may have been moved to a constant
+            m = re.search(r"\b(?:const|static)\s+\w+\s*:[^=;]*=\s*&?\[(.*?)\]\s*;", st, re.S)
+            cand = [x for _, x in F.byte_strings(m.group(1))] if m else []
+            got = [x for x in cand if re.fullmatch(rb"[a-z0-9-]{2,}", x)] if b"x-request-id" in cand else got
+        model = re.search(r"Definition reserved_id_names.*?\]\.", open(os.path.join(vlib.COQ, "C13/Model.v")).read(), re.S).group(0)
+        want = [x.encode() for x in re.findall(r'B "([a-z0-9-]+)"', model)]
+        if set(got) != set(want):
+            return "reserved names %r differ from the model's reserved_id_names (%r)" % (sorted(set(got) ^ set(want)), "symmetric difference")
+        if not re.search(r"eq_ignore_ascii_case|to_ascii_lowercase|to_lowercase", body):
+            return "the reserved names are no longer compared case-insensitively"
+        if len(re.findall(r"\bvalidate_sozu_id_header\s*\(", st)) < 5:
+            return "the add and update paths of the HTTP/HTTPS listeners no longer all call validate_sozu_id_header"
+    _fact(fails, "state.rs validate_sozu_id_header", "the 23 reserved names, case-insensitive, on the add and update paths", reserved, hard=True)
     return fails
 
 
